@@ -360,6 +360,34 @@ def gen_sql(repo):
         out.append("(* %s.sql_type, branch ansi_type == 'int' *)" % cls)
         out.append("Definition %s_rungs : list rung := %s." % (nm, g_list(rungs, g_rung)))
         out.append("Definition %s_else : option (text * nat) := %s." % (nm, "None" if else_type is None else "Some (%s, %d%%nat)" % (g_text(else_type[0]), else_type[1])))
+    # keyword lists: __init__ assigns a list literal and stores set(list) in self._keywords
+    for cls, nm in (("AnsiSqlDialect", "ansi"), ("TransactSqlDialect", "transact"), ("Db2SqlDialect", "db2"), ("PlSqlDialect", "plsql")):
+        init = sql.func("__init__", sql.cls(cls).body)
+        lists = {}
+        stored = None
+        for st in init.body:
+            if isinstance(st, ast.Assign) and isinstance(st.targets[0], ast.Name) and isinstance(st.value, ast.List):
+                lists[st.targets[0].id] = sql.ev(st.value)
+            elif isinstance(st, ast.Assign) and ast.unparse(st.targets[0]) == "self._keywords":
+                v = st.value
+                if not (isinstance(v, ast.Call) and ast.unparse(v.func) == "set" and len(v.args) == 1 and isinstance(v.args[0], ast.Name)):
+                    fail(st, "self._keywords must be set(<list variable>)")
+                stored = v.args[0].id
+            elif isinstance(st, ast.Expr) and isinstance(st.value, ast.Constant):
+                continue
+            else:
+                fail(st, "unexpected statement in %s.__init__" % cls)
+        if stored is None or stored not in lists or not all(isinstance(k, str) for k in lists[stored]):
+            fail(init, "keyword list not found")
+        out.append("Definition %s_keywords : list text := %s." % (nm, g_list(sorted(set(lists[stored])), g_text)))
+    # is_keyword: word.lower() in self.keywords, not overridden
+    ik = sql.func("is_keyword", sql.cls("AnsiSqlDialect").body)
+    rets = [s for s in ik.body if isinstance(s, ast.Return)]
+    if not (len(rets) == 1 and ast.unparse(rets[0].value) == "word.lower() in self.keywords"):
+        fail(ik, "is_keyword must be `word.lower() in self.keywords`")
+    for cls in ("TransactSqlDialect", "Db2SqlDialect", "PlSqlDialect"):
+        if any(isinstance(f, ast.FunctionDef) and f.name in ("is_keyword", "keywords") for f in sql.cls(cls).body):
+            fail(sql.cls(cls), "dialect overrides is_keyword/keywords")
     # ANSI dialect: sql_type must return its argument unchanged
     fn = sql.func("sql_type", sql.cls("AnsiSqlDialect").body)
     body = [s for s in fn.body if not (isinstance(s, ast.Expr) and isinstance(s.value, (ast.Constant, ast.Call)))]
